@@ -46,6 +46,7 @@ package dochandler
 //@ func contains
 //@ func (*DocumentHandler).getUnpublishedOperation
 //@   requires dhOK(r) && op != nil && pv != nil
+//@   ensures result != nil ==> result.ProtocolVersion == genesisOf(pv)
 //@   ensures result != nil ==> fresh(result) && result.UniqueSuffix == op.UniqueSuffix && result.Type == op.Type && result.OperationRequest == op.OperationRequest && result.AnchorOrigin == op.AnchorOrigin
 //@ func (*DocumentHandler).addOperationToUnpublishedOpsStore
 //@   requires dhOK(r)
@@ -80,4 +81,6 @@ package dochandler
 //@   ensures added == old(added) ==> err != nil
 //@   ensures added == old(added) ==> uStored == old(uStored) || (uStored == old(uStored) + 1 && uDeleted == old(uDeleted) + 1 && lastDelOp == lastPutOp)
 //@   ensures added == old(added) + 1 ==> uStored <= old(uStored) + 1 && uDeleted == old(uDeleted)
+//   C20 glue: the operation is parsed by the parser of the requested version and queued under that version's genesis time
+//@   ensures added == old(added) + 1 ==> verOK(r.protocol, protocolVersion) && parseOK2(parserOf(verOf(r.protocol, protocolVersion)), r.namespace, operationBuffer) && lastAddedVersion == genesisOf(verOf(r.protocol, protocolVersion))
 //@   modifies uStored, uDeleted, lastPutOp, lastDelOp, added, lastAddedSuffix, lastAddedVersion, lastResolved
